@@ -299,6 +299,44 @@ pub fn with_affixes(base: BoxedStrategy<(Vec<u32>, Vec<u32>)>) -> BoxedStrategy<
         .boxed()
 }
 
+/// permutation-like pairs: `n` distinct items on each side (all unique), new = old rearranged by
+/// block moves / reversals / a few deletions and fresh insertions (crossing anchors)
+pub fn perm_pair(nmin: usize, nmax: usize) -> BoxedStrategy<(Vec<u32>, Vec<u32>)> {
+    (nmin..=nmax, vec((0u8..5, any::<u16>(), any::<u16>(), 1u8..40), 0..=6), vec((0u8..5, any::<u16>(), any::<u16>(), 1u8..40), 1..=8))
+        .prop_map(|(n, e0, e1)| {
+            let rearr = |v: &mut Vec<u32>, es: &[(u8, u16, u16, u8)], fresh: u32| {
+                for (i, (kind, at, to, len)) in es.iter().enumerate() {
+                    let l = v.len();
+                    if l < 2 {
+                        break;
+                    }
+                    let p = pos(*at, l - 1);
+                    let k = (*len as usize).min(l - p);
+                    match kind {
+                        0 | 1 => {
+                            let run: Vec<u32> = v.drain(p..p + k).collect();
+                            let q = pos(*to, v.len());
+                            for (j, x) in run.into_iter().enumerate() {
+                                v.insert(q + j, x);
+                            }
+                        }
+                        2 => v[p..p + k].reverse(),
+                        3 => {
+                            v.drain(p..p + k.min(3));
+                        }
+                        _ => v.insert(p, fresh + i as u32),
+                    }
+                }
+            };
+            let mut a: Vec<u32> = (0..n as u32).collect();
+            rearr(&mut a, &e0, 1_000_000);
+            let mut b = a.clone();
+            rearr(&mut b, &e1, 2_000_000);
+            (a, b)
+        })
+        .boxed()
+}
+
 /// The shared sequence-pair mixture.
 pub fn seq_pair(max_len: usize) -> BoxedStrategy<(Vec<u32>, Vec<u32>)> {
     let dense = 12.min(max_len);
